@@ -147,6 +147,30 @@ def run(db: DB, rep: Report) -> None:
     from sa.rules.c16 import check_need_enumerate
     check_need_enumerate(db, rep, "N6")
 
+    # ---- N7: every index variable of a projected expression is renamed by its own partitioning
+    rep.rule("N7", "bottom-rank projection renames each index variable by that variable's own partitioning", 1)
+    itf = db.func("teaal.trans.equation.Equation.__iter_fiber")
+    loops7 = [n for n in walk_no_nested(itf.node) if isinstance(n, ast.For) and
+              "atoms" in paths.called_names([n.iter]) and
+              any(isinstance(x, ast.Call) and isinstance(x.func, ast.Attribute) and x.func.attr == "subs"
+                  for x in ast.walk(n))]
+    if len(loops7) != 1:
+        raise AnalysisError("symbol-renaming loop of Equation.__iter_fiber not found")
+    lp7 = loops7[0]
+    subs7 = [x for x in ast.walk(lp7) if isinstance(x, ast.Call) and isinstance(x.func, ast.Attribute)
+             and x.func.attr == "subs"]
+    inner = {x.id for s_ in lp7.body for x in ast.walk(s_) if isinstance(x, ast.Name) and isinstance(x.ctx, ast.Store)}
+    inner |= {x.id for x in ast.walk(lp7.target) if isinstance(x, ast.Name)}
+    for sb in subs7:
+        outside = set()
+        for t, pol in paths.guards(sb, stop=lp7):
+            outside |= {nm for nm in paths.load_names(t) if nm not in inner and nm not in ("str", "len")}
+        rep.check("N7", not outside, db.loc(sb), itf.short, "rename-guard:" + norm(sb)[:50],
+                  "the renaming %s depends only on the symbol's own partitioning" % norm(sb)[:40],
+                  "whether an index variable of the projected expression is renamed to its bottom partition "
+                  "level depends on %s, which is not derived from that variable: a variable with its own "
+                  "partitioning keeps its root name, which no loop binds" % sorted(outside))
+
     # ---- N3 --------------------------------------------------------------------
     rep.rule("N3", "receiver temporary is named before the next temporary is allocated", 4)
     for f in db.all_functions(["teaal.trans."]):
@@ -259,6 +283,10 @@ def mutants(db: DB):
           "            if True:\n\n                # If this is the first time we are seeing the space stamp", "N2"),
         M("revert F4 fix", eq, "        return enum_int or (enum_st and enum_metrics)",
           "        return (enum_int or enum_st) and enum_metrics", ("N6", "N2")),
+        M("rename only variables split together with the loop rank", eq,
+          "                if new_rank:\n                    sexpr = sexpr.subs(symbol, str(symbol) + \"0\")",
+          "                if new_rank and new_rank == partitioning.partition_rank((root.upper(),)) and troot:\n                    sexpr = sexpr.subs(symbol, str(symbol) + \"0\")",
+          "N7"),
         M("split_equal allocates before naming the receiver", pt,
           "        curr_tmp = self.trans_utils.curr_tmp()\n        part_call = EMethod(EVar(curr_tmp), \"splitEqual\", args)\n\n        next_tmp = AVar(self.trans_utils.next_tmp())",
           "        next_tmp = AVar(self.trans_utils.next_tmp())\n        curr_tmp = self.trans_utils.curr_tmp()\n        part_call = EMethod(EVar(curr_tmp), \"splitEqual\", args)\n",
